@@ -46,7 +46,7 @@ theorem c17gen_no_overwrite_input_unchanged (files : Files) (h : Heap) (doc : Va
 
 /-- `overwrite=True`: the translated program assigns only the four attributes of members of `doc.cells` -/
 theorem c17gen_overwrite_frame (files : Files) (h : Heap) (hwf : WF h) (d : Nat) (hd : d < h.length) :
-    Frame (listItems h (getattrV h (Val.ref d) "cells")) h (runFix (Gen.FixExternal.fix files) h (Val.ref d) true).heap := by
+    Frame (allCells h (Val.ref d)) h (runFix (Gen.FixExternal.fix files) h (Val.ref d) true).heap := by
   rw [c17gen_fix_eq]
   exact c17g_overwrite_frame files h hwf d hd
 
